@@ -27,6 +27,8 @@ type Bus struct {
 	sent  []*wire.Envelope
 	taps  []func(*wire.Envelope)
 	after []func(*wire.Envelope)
+	// holding counts senders that are inside the after-taps
+	holding atomic.Int64
 	// blockUnknown: Publish to an address nobody is subscribed under waits for
 	// the recipient (or the caller's context, or the shutdown of the bus), as a
 	// network bus that keeps dialling does; default is an immediate error
@@ -63,7 +65,7 @@ var _ wire.Bus = (*Bus)(nil)
 func (b *Bus) Activity() uint64 { return b.activity.Load() }
 
 // Busy reports whether envelopes are queued on links that are not paused.
-func (b *Bus) Busy() bool { return b.pending.Load() != 0 }
+func (b *Bus) Busy() bool { return b.pending.Load() != 0 || b.holding.Load() != 0 }
 
 // Tap registers an observer that sees every published envelope (after the
 // serializer round trip) before it is delivered.
@@ -186,8 +188,14 @@ func (b *Bus) Publish(ctx context.Context, e *wire.Envelope) error {
 	if start {
 		go b.run(l)
 	}
-	for _, t := range after {
-		t(e)
+	if len(after) > 0 {
+		// a sender held back by a scenario is not quiet: it goes on when released
+		b.holding.Add(1)
+		for _, t := range after {
+			t(e)
+		}
+		b.activity.Add(1)
+		b.holding.Add(-1)
 	}
 	return nil
 }
